@@ -843,6 +843,21 @@ func (rb *refBroker) check(ev hx.Group, obs map[int][][]byte, calls []call) []fa
 			if len(missing) == 0 {
 				pm = classify(extra[0])
 			}
+			// an acceptable CONNECT that is not answered with return code 0 at all is C11's; a CONNACK 0 with the wrong
+			// session-present flag is C10's
+			for _, d := range missing {
+				if strings.HasPrefix(d, "CONNACK") && strings.HasSuffix(d, "code=0") {
+					answered := false
+					for _, x := range extra {
+						if strings.HasPrefix(x, "CONNACK") && strings.HasSuffix(x, "code=0") {
+							answered = true
+						}
+					}
+					if !answered {
+						pm = "C11"
+					}
+				}
+			}
 			fails = append(fails, tag(pm, fmt.Sprintf("connection %d: missing %v, unexpected %v (received %v)", id, missing, extra, got)))
 		} else if f, ok := ex.first[id]; ok && len(got) > 0 && got[0] != f {
 			fails = append(fails, tag(classify(f), fmt.Sprintf("connection %d: %s must come first, received %v", id, f, got)))
